@@ -704,7 +704,7 @@ def report(viols, hs_viol, lib_by_id, lib, refs, seed, scratch):
     rundir = os.path.join(scratch, "c17-min")
     solo_seen = set()
     for h in hs_viol:
-        if (h["clause"], h["desc"]["family"]) in solo_seen:
+        if (h["clause"], h["desc"]["family"]) in solo_seen or len(solo_seen) >= 8:
             continue
         solo_seen.add((h["clause"], h["desc"]["family"]))
         doc = {"kind": "hashseed", "seed": seed, "clause": h["clause"], "desc": h["desc"], "files": h["files"]}
